@@ -435,7 +435,10 @@ TSeg(s, i) ==
 TIdeal(s) == TSeg(s, 1)
 \* a single brace directly in front of a reference segment: "starting double curly brackets are
 \* always a reference" does not say which two
-TAmbiguous(s) == \E i \in 1..(Len(s) - 1) : s[i] = "{" /\ s[i + 1] = "{"
+\* likewise a reference followed by two slices ({{?v}[1][1]}) is outside the documented forms, but
+\* close enough to one that "plain text" is not a safe reading
+TAmbiguous(s) == \/ \E i \in 1..(Len(s) - 1) : s[i] = "{" /\ s[i + 1] = "{"
+                 \/ \E i \in 1..(Len(s) - 3) : s[i] = "{" /\ s[i + 1] \in TRefs /\ s[i + 2] \in TSlices /\ s[i + 3] \in TSlices
 TClass(s) == IF TAmbiguous(s) THEN "unspecified" ELSE "value"
 
 (***************************************************************************)
@@ -623,15 +626,21 @@ MFmtOK(t) == t \in {"F.2f", "F03d"}            \* formats the regex :[0-9.]*[sdf
 TERR == << [k |-> "err", s |-> "", ref |-> "", sl |-> <<-1, -1>>, fmt |-> ""] >>
 IsTErr(x) == x # <<>> /\ x[Len(x)].k = "err"
 TUNK == << [k |-> "unk", s |-> "", ref |-> "", sl |-> <<-1, -1>>, fmt |-> ""] >>
+\* position after the slices / the format that follow the reference s[i+1]: part_reference consumes
+\* one slice itself and the solver's own part_slice a second one, which then wins
+MAfterSl(s, i) == LET j0 == i + 2
+                      j1 == IF j0 <= Len(s) /\ s[j0] \in TSlices THEN j0 + 1 ELSE j0
+                  IN IF j1 > j0 /\ j1 <= Len(s) /\ s[j1] \in TSlices THEN j1 + 1 ELSE j1
+MAfterFmt(s, i) == LET j1 == MAfterSl(s, i) IN IF j1 <= Len(s) /\ MFmtOK(s[j1]) THEN j1 + 1 ELSE j1
 RECURSIVE TMachFrom(_, _)
 TMachFrom(s, i) ==
   IF i > Len(s) THEN <<>>
   ELSE IF s[i] = "{" /\ i + 1 <= Len(s) /\ s[i + 1] \in TRefs THEN
-       LET j1 == IF i + 2 <= Len(s) /\ s[i + 2] \in TSlices THEN i + 3 ELSE i + 2
-           j2 == IF j1 <= Len(s) /\ MFmtOK(s[j1]) THEN j1 + 1 ELSE j1
+       LET j1 == MAfterSl(s, i)
+           j2 == MAfterFmt(s, i)
        IN IF j2 > Len(s) THEN TERR                                   \* p.ccode[0] on an empty string: IndexError
           ELSE IF s[j2] = "}" THEN
-               <<SegRef(s[i + 1], IF j1 = i + 3 THEN TSliceOf(s[i + 2]) ELSE <<-1, -1>>,
+               <<SegRef(s[i + 1], IF j1 > i + 2 THEN TSliceOf(s[j1 - 1]) ELSE <<-1, -1>>,
                         IF j2 = j1 + 1 THEN TFmtOf(s[j1]) ELSE "")>> \o TMachFrom(s, j2 + 1)
           ELSE <<SegText("{")>> \o TMachFrom(s, i + 1)
   ELSE IF s[i] = "{" /\ i + 1 <= Len(s) /\ s[i + 1] = "{" THEN
@@ -646,7 +655,6 @@ TFeatures(s) ==
         (LET fp == IF s[i + 2] \in TSlices THEN i + 3 ELSE i + 2 IN s[fp] \in TFmts /\ ~MFmtOK(s[fp]))
    THEN {"format_outside_sdfeb"} ELSE {})
   \cup (IF \E i \in 1..Len(s) : s[i] = "{" /\ i + 1 <= Len(s) /\ s[i + 1] \in TRefs /\ TRefLen(s, i) = 0 /\
-          (LET j1 == IF i + 2 <= Len(s) /\ s[i + 2] \in TSlices THEN i + 3 ELSE i + 2
-               j2 == IF j1 <= Len(s) /\ MFmtOK(s[j1]) THEN j1 + 1 ELSE j1 IN j2 > Len(s))
+          MAfterFmt(s, i) > Len(s)
         THEN {"reference_at_end_of_text"} ELSE {})
 =============================================================================
